@@ -789,8 +789,9 @@ package twig
 //@   ensures arrRef(t.tempStrings) == old(arrRef(t.tempStrings)) || freshArr(t.tempStrings)
 //@ func countNewlines props: C05
 //@   pure
+// Intern only touches its own cache of strings (value equal to key: C01 global_allow)
 //@ func Intern props: C05
-//@   pure
+//@   modifies entries(globalCache.strings), globalCache.RWMutex
 // Each round of the main loop starts right behind a closing delimiter (or behind an opener that a
 // backslash turned into text); the text token it emits is exactly the source between that position
 // and the first opener after it; the tag's tokens are produced from the source between the end of
@@ -876,3 +877,19 @@ package twig
 //@   atcall io.StringWriter.WriteString a1 == s
 //@   atcall (*Buffer).WriteString#1 a1 == s
 //@   atcall (*Buffer).WriteString#2 a1 == s
+// lowering ASCII letters keeps the length (positions found in the result are positions in s)
+//@ func lowerASCII props: C05
+//@   pure
+//@   ensures len(ret) == len(s)
+//@   loop 1 invariant 0 <= i
+//@   loop 2 invariant len(b) == len(s)
+//@ func (*ZeroAllocTokenizer).tokenizeObjectContents props: C05
+//@   loop 1 invariant 0 <= i && 0 <= start && start <= i && (colonPos == 0 - 1 || (start <= colonPos && colonPos < i)) && t.source == old(t.source) && t.position == old(t.position) && t.line == old(t.line)
+//@ func estimateTokenCount props: C05
+//@   function
+//@   ensures ret >= 64 && (templateSize >= 0 ==> ret <= templateSize + 1024)
+//@ func (*Buffer).WriteFormat props: C05
+//@   loop 1 invariant 0 <= i && 0 <= startIdx && startIdx <= i + 1 && startIdx <= len(format) && 0 <= argIdx
+//@ func (*Buffer).formatInt props: C05
+//@   loop 1 invariant 0 <= j && j <= digits && 1 <= digits && digits <= 6 && 0 <= start && len(b.buf) == start + j
+//@   loop 2 invariant 0 <= j && 1 <= digits && digits <= 6 && 0 <= start && len(b.buf) == start + digits && end == len(b.buf) - 1
